@@ -115,6 +115,18 @@ func runC04(cfg *hx.Config) {
 			}
 		}
 	}
+	// integer texts at and beyond the edges of the field's width (a reader returns the value or an error: never a wrapped value)
+	{
+		c := newCase("c04", "Inner", schema.coqTy(ref("Inner")))
+		c.desc.Note = "integer-range"
+		for _, z := range []string{"2147483647", "2147483648", "-2147483648", "-2147483649", "4294967296", "4294967297", "-4294967289", "9223372036854775807", "9223372036854775808",
+			"18446744073709551617", "99999999999999999999999", "0000000001", "+1", "1.0", "1e3", "0x10", "١"} {
+			hostile(c, "Inner", 0, `{"a":`+z+`}`, rep)
+			hostile(c, "Inner", 2, "(a:"+z+")", rep)
+			hostile(c, "Inner", 4, "(a:"+z+")", rep)
+		}
+		sh.Add(c.coq(), c.describe())
+	}
 	// long inputs: valid documents with 63..130 array items / map entries / sibling records, their truncations at a few
 	// points and single-byte edits (a reader must not depend on how many items an input has)
 	for _, n := range []int{63, 64, 65, 66, 129} {
